@@ -272,7 +272,7 @@ class Rules:
         if fname in ('rate.rs', 'engine.rs') or fname.startswith('rate/rate_') or fname.startswith('engine/engine_'):
             src = self.r11_assoc(fname, src)
         if fname in ARCH_FILES:
-            src = self.r10_simd(fname, src)
+            src = self.r10_model(fname, src) if self.arch == 'x86_64' else self.r10_simd(fname, src)
         src = self.r_vis(fname, src)
         return src
 
@@ -387,6 +387,39 @@ class Rules:
                 text += '\n    ' + b + '\n'
                 self.note('R11', fname, src, im.start, 'copy of provided %s::%s into impl for %s' % (im.trait, name, im.target))
             ed.add(im.end - 1, im.end - 1, text, 'R11')
+        return ed.apply()
+
+    def r10_model(self, fname, src):
+        """x86 SIMD engines: keep every kernel, verified over the intrinsic model of prelude.rs `simd`.
+        (a) `use std::arch::x86_64::*` -> the model module (types and intrinsics keep their names);
+        (b) raw-pointer plumbing, per function: `let P = X.as_mut_ptr().cast::<__mNi>();` is dropped and every
+            `_mmN_loadu_siN(P[.add(k)])` / `_mmN_storeu_siN(P[.add(k)], v)` becomes `loadN(X, k)` / `storeN(X, k, v)`
+            (X: &mut [u8; 64]; the in-bounds condition k*N/8 + N/8 <= 64 is the stub's precondition);
+        (c) `_mm_loadu_si128(std::ptr::from_ref::<u128>(&E).cast::<__m128i>())` -> `load128_u128(&E)`.
+        Anything pointer-shaped that these patterns do not cover is left as is and fails in Verus' front end (localised)."""
+        src = re.sub(r'#\[cfg\(target_arch = "x86"\)\]\s*use std::arch::x86::\*;\s*', '', src)
+        src = self.regex_rule('R10', fname, src, r'use std::arch::x86_64::\*;', 'use crate::vprelude::simd::*;')
+        src = self.regex_rule('R10', fname, src, r'_mm_loadu_si128\(\s*std::ptr::from_ref::<u128>\(&([^()]+?)\)\s*\.cast::<__m128i>\(\),?\s*\)', r'load128_u128(&\1)')
+        # R21: destructuring assignment of a pair `(a, b) = e;` -> `let t = e; a = t.0; b = t.1;` (its definition; Verus lacks the sugar)
+        src = self.regex_rule('R21', fname, src, r'(?m)^([ \t]*)\((\w+), (\w+)\) = ([^;\n]+);', lambda m: '%slet r21_%s = %s; %s = r21_%s.0; %s = r21_%s.1;' % (m.group(1), m.group(2), m.group(4), m.group(2), m.group(2), m.group(3), m.group(2)))
+        items = rsx.parse_items(src)
+        ed = Edits(src)
+        for it in rsx.walk(items):
+            if it.kind != 'fn' or it.body_open is None:
+                continue
+            body = src[it.body_open:it.end]
+            ptrs = {}
+            for m in re.finditer(r'[ \t]*let (\w+) = (\w+)\.as_mut_ptr\(\)\.cast::<__m(128|256)i>\(\);[ \t]*\n', body):
+                ptrs[m.group(1)] = (m.group(2), m.group(3))
+                ed.add(it.body_open + m.start(), it.body_open + m.end(), '', 'R10')
+                self.note('R10', fname, src, it.body_open + m.start(), 'pointer %s = %s as *mut __m%si' % (m.group(1), m.group(2), m.group(3)))
+            for P, (X, w) in ptrs.items():
+                ld = '_mm_loadu_si128' if w == '128' else '_mm256_loadu_si256'
+                st = '_mm_storeu_si128' if w == '128' else '_mm256_storeu_si256'
+                for m in re.finditer(r'\b%s\(\s*%s(?:\.add\((\d+)\))?\s*\)' % (ld, P), body):
+                    ed.add(it.body_open + m.start(), it.body_open + m.end(), 'load%s(%s, %s)' % (w, X, m.group(1) or '0'), 'R10')
+                for m in re.finditer(r'\b%s\(\s*%s(?:\.add\((\d+)\))?\s*,' % (st, P), body):
+                    ed.add(it.body_open + m.start(), it.body_open + m.end(), 'store%s(%s, %s,' % (w, X, m.group(1) or '0'), 'R10')
         return ed.apply()
 
     def r10_simd(self, fname, src):
